@@ -1,7 +1,7 @@
 (* C13 correspondence dispatch: one case = (op, s, ints, bytes); ops 0..13 are the varint
    codecs (Model.run_case), the rest the cells added later.  Definitions only. *)
 From ZV.Common Require Import Base Run.
-From ZV.C13 Require Import Model ModelIO ModelReader ModelTypes ModelVersioned ModelWriter ModelRangeWriter.
+From ZV.C13 Require Import Model ModelIO ModelReader ModelTypes ModelVersioned ModelWriter ModelRangeWriter ModelMmapZc.
 Open Scope N_scope.
 
 Definition run_case2 (op s : N) (ints : list Z) (bytes : list N) : option (list Z) :=
@@ -26,6 +26,7 @@ Definition run_case2 (op s : N) (ints : list Z) (bytes : list N) : option (list 
   | 30 => run_reader 0 s ints bytes
   | 31 => run_reader 1 s ints bytes
   | 32 => run_reader 2 s ints bytes
+  | 33 => run_mz ints bytes
   (* the type universe: encoder bytes / decoded value and bytes consumed *)
   | 40 => run_enc_ty ints
   | 41 => run_dec_ty ints bytes
